@@ -99,10 +99,10 @@ def evaluate(items, prefix, per=6, strict_too=True):
             body.append(txt)
         text = W.HDR + "".join(lang_defs.values()) + "\n".join(body)
         for j, it in enumerate(chunk):
-            text += "\nEval vm_compute in (%s).\n" % W.check_call(it["L"].lang, j).replace("STRICT", "false")
+            text += "\nEval vm_compute in (%s).\n" % W.check_call(it["L"].lang, j).replace("STRICT", "false").replace("INFER", "false")
         if strict_too:
             text += "\nEval vm_compute in [%s].\n" % "; ".join(
-                "List.length (%s)" % W.check_call(it["L"].lang, j).replace("STRICT", "true") for j, it in enumerate(chunk))
+                "List.length (%s)" % W.check_call(it["L"].lang, j).replace("STRICT", "true").replace("INFER", "false") for j, it in enumerate(chunk))
         files.append(("%s_%d" % (prefix, k // per), text))
     C.clean_cases(prefix + "_")
     res = C.run_case_files(files, timeout=1800)
@@ -139,7 +139,7 @@ def certify(items, prefix, codes_name, codes, per=6):
             txt, _, _ = W.program_defs(L, it["program"], j)
             body.append(txt)
             body.append("Theorem p%d_accepted : only_codes %s (%s) = [].\nProof. vm_compute. reflexivity. Qed.\n"
-                        % (j, codes_name, W.check_call(L.lang, j).replace("STRICT", "false")))
+                        % (j, codes_name, W.check_call(L.lang, j).replace("STRICT", "false").replace("INFER", "false")))
         files.append(("%sc_%d" % (prefix, k // per), W.HDR + "".join(lang_defs.values()) + "\n".join(body)))
     res = C.run_case_files(files, timeout=1800)
     n = 0
